@@ -511,6 +511,7 @@ class Check(PropertyCheck):
         out += self.tie_templates()
         out += self.tie_counters_ops()
         out += self.known_template_collision()
+        out += self.histories()
         out += self.differential(self.cli_cases(), self.seeds())
         return out
 
@@ -677,7 +678,7 @@ class Check(PropertyCheck):
         for k in range(ncnt):
             p = self.small_project(k)
             jobs.append({'kind': 'counters', 'files': p['files'], 'roots': p['roots']})
-        prevs = ['none', 'same', 'stale', 'symlink'] if self.tier == 'quick' else ['none', 'same', 'stale', 'symlink'] * 3
+        prevs = ['none', 'same', 'stale', 'symlink', 'pagelink'] if self.tier == 'quick' else ['none', 'same', 'stale', 'symlink', 'pagelink'] * 3
         for k, pv in enumerate(prevs):
             p = self.small_project(100 + k)
             jobs.append({'kind': 'ops', 'files': p['files'], 'roots': p['roots'], 'prev': pv,
@@ -718,12 +719,20 @@ class Check(PropertyCheck):
         final = {e[0]: e for e in r['final']}
         ops = []
         pending_unlink = None
+        probed = None
         for o in r['ops']:
+            if o[0] == 3:
+                probed = o[1]                  # is_symlink() asked about this name: the next open of it is a PAGE write
+                continue
+            if o[0] == 2:
+                continue                       # the unlink itself: part of WritePage / Relink
             if o[0] == 0:
                 e = final.get(o[1])
                 if e and e[1] == 1:            # written through a symlink: the bytes are at the target
                     e = final.get(e[2])
-                ops.append([0, o[1], cid(e[2]) if e and e[1] == 0 else 0])
+                ops.append([2 if probed == o[1] else 0, o[1], cid(e[2]) if e and e[1] == 0 else 0])
+                self.count('ops_page_writes' if probed == o[1] else 'ops_following_writes')
+                probed = None
             elif o[0] == 1:
                 ops.append([1, o[1], o[2]])
         prev = [[e[0], e[1], cid(e[2]) if e[1] == 0 else e[2]] for e in r['prev']]
@@ -810,6 +819,35 @@ class Check(PropertyCheck):
         return [Violation('oracle', 'two runs with the same --template-dir (names differing only in case) give different output trees: '
                           '%s: %s' % (d.get('file'), d.get('what')),
                           case={'kind': 'cli', 'case': case, 'seeds': seeds}, observed=d)]
+
+    def history_cases(self) -> List[Any]:
+        """two DIFFERENT commands, one after the other, into the same output directory (corpus)"""
+        files = {'a.py': '"""A."""\nclass KA:\n    """ka"""\n', 'b.py': '"""B."""\nclass KB:\n    """kb"""\n',
+                 'pk/__init__.py': '"""pk"""\n', 'pk/m.py': 'class M:\n    """m"""\n'}
+        base = {'files': files, 'dirs': [], 'args': ['-q', '--project-name=P'], 'time': 'epoch'}
+        return [
+            dict(base, name='single root, then two roots', first={'roots': ['a.py'], 'args': base['args']}, roots=['a.py', 'b.py']),
+            dict(base, name='two roots, then a single root', first={'roots': ['a.py', 'b.py'], 'args': base['args']}, roots=['a.py']),
+            dict(base, name='single root package, then another single root', first={'roots': ['pk'], 'args': base['args']}, roots=['a.py']),
+            dict(base, name='single root, then the same single root', first={'roots': ['pk'], 'args': base['args']}, roots=['pk']),
+            dict(base, name='single root, then a package plus that root', first={'roots': ['a.py'], 'args': base['args']}, roots=['pk', 'a.py']),
+        ]
+
+    def histories(self) -> List[Violation]:
+        cases = self.history_cases()
+        res = lib.run_impl_worker('c18_cli.py', {'mode': 'history', 'cases': cases, 'jobs': 5}, timeout=1800)
+        out: List[Violation] = []
+        for c, r in zip(cases, res):
+            self.evaluations += r['runs']
+            self.count('history_runs', r['runs'])
+            self.count('history_leftover_files', len(r['leftovers']))
+            if not r['equal']:
+                d = r['diff']
+                out.append(Violation('oracle', 'history "%s": what the second command writes differs from the same command into a fresh '
+                                     'directory: %s: %s | %r vs %r (symlinks left by the first run: %s)'
+                                     % (c['name'], d.get('file'), d.get('what'), d.get('first'), d.get('second'), r['prev_symlinks']),
+                                     case={'kind': 'history', 'case': c}, observed=dict(d, prev_symlinks=r['prev_symlinks'])))
+        return out
 
     def differential(self, cases: List[Any], seeds: List[int], limit: int = 3) -> List[Violation]:
         out: List[Violation] = []
@@ -904,6 +942,18 @@ class Check(PropertyCheck):
                     f = (v.observed or {}).get('file', '') if isinstance(v.observed, dict) else ''
                     if colliding and f.lower() in colliding:
                         return k
+            if m.get('class') == 'leftover-root-symlink' and c.get('kind') == 'history':
+                # exactly: run 1 had ONE root R and left R.html -> index.html; run 2 writes a page R.html (R is no longer the
+                # single root); the first differing entry is that link or the index.html it points to
+                hc = c['case']
+                r1 = hc['first']['roots']
+                obs = v.observed if isinstance(v.observed, dict) else {}
+                if len(r1) == 1:
+                    link = r1[0].split('/')[-1].removesuffix('.py') + '.html'
+                    r2 = [x.split('/')[-1].removesuffix('.py') for x in hc['roots']]
+                    if obs.get('prev_symlinks', {}).get(link) == 'index.html' and link[:-5] in r2 and len(r2) > 1 \
+                            and obs.get('file') in (link, 'index.html'):
+                        return k
         return None
 
     def replay(self, data: Any) -> int:
@@ -929,6 +979,16 @@ class Check(PropertyCheck):
             print('listing B:', case['b']['roots'], '->', rb['unproc'])
             print('property : the same directory content must give the same modules in the same order')
             return 1 if ra != rb else 0
+        if kind == 'history':
+            r = lib.run_impl_worker('c18_cli.py', {'mode': 'history', 'cases': [case['case']], 'jobs': 1})[0]
+            print('first command :', case['case']['first']['roots'], '| second command:', case['case']['roots'], '(same output directory)')
+            print('leftovers of the first run (never cleaned):', r['leftovers'])
+            if r['equal']:
+                print('property      : every file the second command writes equals the fresh-directory build')
+                return 0
+            d = r['diff']
+            print('property      : VIOLATED --', d.get('file'), d.get('what'), '| fresh:', repr(d.get('first'))[:160], '| reused:', repr(d.get('second'))[:160])
+            return 1
         if kind == 'templates_pair':
             ra, rb = lib.run_impl_worker('c18_tie.py', [case['a'], case['b']])
             print('listing A:', case['a']['files'], '->', ra)
